@@ -221,7 +221,8 @@ class C11(Prop):
     pid = "C11"
     coq_targets = ["Properties/C11.vo", "Model/CheckC01.vo"]
     theorems = ["C11_aggregate_row_permutation", "C11_carve_depends_on_multisets_only",
-                "C11_carve_invariant_under_re_encoding"]
+                "C11_carve_invariant_under_row_permutation", "C11_carve_invariant_under_re_encoding",
+                "C11_unit_of_a_value_is_order_only"]
     rule = ("metamorphic pairs on real carvers (BinaryCarver, ContinuousCarver; quantitative, ordinal, "
             "categorical feature; NaN; optional dev): original fit vs row permutation, index = offsets / "
             "shuffled ints / strings, exact affine maps (a in {2^k, 3, 10, 1}, integer b, exactness checked "
